@@ -51,6 +51,14 @@ func BaseDocs() []*Doc {
 		// B15 an interface field its implementers serve with different kinds of Go members (nick: a struct field on A and C, a
 		// method on B), selected on the interface itself, on lists that mix the implementers, and on the objects
 		Q(F("nameds", F("nick"), F("name")), F("named", F("nick")), F("a", F("nick"), F("named", F("nick"))), F("b", F("nick"), F("named", F("nick")), F("buddy", F("nick"))), F("c", F("nick"), F("buddy", F("nick")))),
+		// B16 fields AFTER fragments in one selection set: the fragments are on other abstract types than the container (an
+		// interface under an object, the union under the interface), the fields that follow are ones those types do not declare
+		{Ops: []*Op{{Type: "query", Anon: true, Sels: []*Sel{
+			F("a", In("Named", F("name")), F("id"), Sp("FN"), F("s"), In("AB", F("__typename")), F("onlyA")),
+			F("nameds", In("AB", F("__typename")), F("name"), In("A", F("id")), F("nick")),
+			F("b", In("Named", F("nick")), F("onlyB"), F("peers", Sp("FN"), F("id"))),
+			F("us", In("Named", F("name")), In("B", F("s"))),
+		}}}, Frags: []*Frag{{Name: "FN", Cond: "Named", Sels: []*Sel{F("i")}}}},
 	}
 }
 
